@@ -18,7 +18,7 @@ from . import msm
 LEVEL_TEXT = ('Static analysis (guard normal forms on MIR dominators + witness taint of guard conditions). Decides that the prover\'s success exit is '
               'protected, for every opening / commitment / promise, by exactly the five documented witness checks with the right constants, and that '
               'the bit decomposition consumes value minus promise; `PedersenGens::commit`, whose failure the prover hands on, accepts exactly 1..=degree '
-              'blinding factors; the witness constructors compare every opening's blinding length with the stored degree. Does not decide that a returned proof verifies (completeness, C01).')
+              'blinding factors; the witness constructors compare every opening\'s blinding length with the stored degree. Does not decide that a returned proof verifies (completeness, C01).')
 ASSUMPTIONS = ['u64::checked_sub, >> and comparison behave as documented', 'PedersenGens::commit is the commitment function of the statement\'s generators (C17 checks its own guards)']
 RULE_TEXT = ('one obligation per expected guard (shape, quantifier, constants, effectiveness) and one per witness-dependent rejecting guard found; '
              'non-trivial = decided from a guard term')
